@@ -98,6 +98,26 @@ class Normaliser:
             return t
         if k in ("c", "in", "dom", "closure", "unk"):
             return t
+        if k == "elem":
+            inner = self._norm(t[1], subst, assume)
+            if inner[0] == "vec" and inner[1] and all(s_[0] == "seg" for s_ in inner[1]):
+                segs = inner[1]
+                if len(segs) == 1:
+                    return segs[0][2]
+                alts = []
+                for s_ in segs:
+                    cn = s_[3]
+                    truth = decide(cn, assume) if cn is not None else True
+                    if truth is False:
+                        continue
+                    if truth is True:
+                        return s_[2]
+                    alts.append((cn, s_[2]))
+                if len(alts) == 1:
+                    return alts[0][1]
+                if alts:
+                    return ("phi", tuple(alts))
+            return ("elem", inner)
         if k == "fld":
             return self.rewrite(fld(self._norm(t[1], subst, assume), t[2]))
         if k == "payload":
@@ -110,7 +130,14 @@ class Normaliser:
                 if s[0] == "one":
                     segs.append(("one", self._norm(s[1], subst, assume)))
                 elif s[0] == "seg":
-                    segs.append(("seg", self.norm_d(s[1], subst, assume), self._norm(s[2], subst, assume), self._norm(s[3], subst, assume) if s[3] is not None else None))
+                    cn = self._norm(s[3], subst, assume) if s[3] is not None else None
+                    if cn is not None:
+                        truth = decide(cn, assume)
+                        if truth is False:
+                            continue
+                        if truth is True:
+                            cn = None
+                    segs.append(("seg", self.norm_d(s[1], subst, assume), self._norm(s[2], subst, assume), cn))
                 elif s[0] == "fill":
                     segs.append(("fill", self._norm(s[1], subst, assume), self._norm(s[2], subst, assume)))
                 else:
@@ -234,6 +261,13 @@ class Matcher:
         self.trace = []
         self.failures = []      # [(conds, message, loc)] writer branches that no reader path accepts
         self.collect = True
+        self.writer_assume = frozenset()
+        self.writer_returns_are_errors = False
+
+    def size_equal(self, a, b):
+        if isinstance(a, tuple) and isinstance(b, tuple) and a and b and a[0] == "len" and b[0] == "len":
+            return self.dom_equal(norm_dom(a[1]), norm_dom(b[1]))
+        return False
 
     def match(self, enc, dec, subst):
         """returns list of outcomes: each (subst, sinks[list of (name, term, conds)]) — one per consistent (writer path, reader path) pair.
@@ -261,13 +295,15 @@ class Matcher:
                 continue
             break
         if not enc and not dec:
-            return [(subst, sinks)]
+            return [(subst, sinks, tuple(conds))]
         # writer alt: every branch must be accepted
         if enc and enc[0][0] == "alt":
             outs = []
             for cond, evs, ex, exval in enc[0][1]:
-                if ex in ("err",) or (ex == "return" and is_err_value(exval)):
+                if ex in ("err",) or (ex == "return" and (is_err_value(exval) or self.writer_returns_are_errors)):
                     continue     # the writer refuses this value: not a path the reader has to accept
+                if cond is not True and decide(self.N.norm(cond, subst, self.writer_assume | assumptions(conds)), self.writer_assume | assumptions(conds)) is False:
+                    continue
                 if ex == "return":
                     rest = evs
                 else:
@@ -317,6 +353,10 @@ class Matcher:
                     # prefer the branch whose grammar consumed the writer's events exactly — all did; report
                     raise Mismatch("ambiguous pairing of writer and reader branches with different results", dec[0][2])
             return ok[0][1]
+        if not enc and dec[0][0] == "R" and len(dec[0]) > 4 and dec[0][4] == ("rest",):
+            s2 = dict(subst)
+            s2[dec[0][2]] = ("vec", ())
+            return self._m(enc, dec[1:], s2, sinks, conds)
         if not enc:
             raise Mismatch(f"the reader expects more data than the writer produced: {render(dec[:1])}", ev_loc(dec[0]))
         if not dec:
@@ -328,10 +368,10 @@ class Matcher:
             s2 = dict(subst)
             s2[d[2]] = e[2]
             if len(e) > 4 and len(d) > 4 and e[4] is not None and d[4] is not None:
-                assume = assumptions(conds)
+                assume = assumptions(conds) | self.writer_assume
                 wn = strip_casts(self.N.norm(e[4], subst, assume))
                 rn = strip_casts(self.N.norm(d[4], subst, assume))
-                if wn != rn and not contains_unk(wn) and not contains_unk(rn) and rn != ("rest",):
+                if wn != rn and not self.size_equal(wn, rn) and not contains_unk(wn) and not contains_unk(rn) and rn != ("rest",):
                     raise Mismatch(f"the reader takes {term_str(rn, 5)} bytes where the writer emitted {term_str(wn, 5)} bytes ({term_str(e[2], 4)}): the length prefix does not describe what follows", d[3])
             return self._m(enc[1:], dec[1:], s2, sinks, conds)
         if e[0] == "rep" and d[0] == "rep":
@@ -341,12 +381,18 @@ class Matcher:
                 raise Mismatch(f"loop domains differ: writer repeats over {term_str(de, 4)}, reader over {term_str(dd, 4)}", d[3])
             inner = self._m(e[2], d[2], subst, [], conds)
             outs = []
-            for s_in, sinks_in in inner:
+            for s_in, sinks_in, conds_in in inner:
                 sk = sinks + [(x[0], x[1], x[2], x[3], d[1]) if len(x) == 4 else x for x in sinks_in]
-                # reads bound inside the loop body stay visible (per-iteration symbolic)
-                outs += self._m(enc[1:], dec[1:], s_in, sk, conds)
+                # reads bound inside the loop body stay visible (per-iteration symbolic), and so do the branch decisions
+                outs += self._m(enc[1:], dec[1:], s_in, sk, list(conds_in))
             return outs
         if e[0] == "W" and d[0] == "rep":
+            col = self.N.norm(e[2], subst, assumptions(conds) | self.writer_assume)
+            if e[1] == "bytes" and col[0] == "vec" and col[1] and all(s_[0] == "seg" for s_ in col[1]) and len({norm_dom(s_[1]) for s_ in col[1]}) == 1:
+                dom_ = col[1][0][1]
+                el_ = col[1][0][2] if len(col[1]) == 1 else ("elem", col)
+                expanded = ("rep", dom_, [("W", "bytes", ("vec", (("one", el_),)), e[3], C(1))], e[3])
+                return self._m([expanded] + enc[1:], dec, subst, sinks, conds)
             raise Mismatch(f"the writer emits a single {e[1]} where the reader loops", d[3])
         if e[0] == "rep" and d[0] == "R":
             raise Mismatch(f"the writer loops where the reader consumes a single {d[1]}", d[3])
@@ -463,6 +509,8 @@ class Identity:
     def check(self, t, base, path=""):
         """[] if t is the identity on base; else list of (field path, got) mismatches"""
         if t == base:
+            return []
+        if is_var(t, NONE) and (("not", ("is", base, SOME)) in self.assume or ("is", base, NONE) in self.assume):
             return []
         for name, f in self.allowed:
             if f(t, base, self.assume):
